@@ -195,6 +195,29 @@ func subC05(out string, seed uint64, tier string, arg string) {
 	targetedHistories(rep, rng, g, tier)
 	sharedBufferHistories(rep, rng, g, objs, tier)
 	zoneBoundarySearch(rep, rng, g, objs, tier)
+	// every corpus object once, whatever the sample below picks: exported fields (followed through pointers and interfaces:
+	// key material, big integers) before and after one run, and a second run on the same parsed object
+	for _, o := range objs {
+		a := o.reparse()
+		if a == nil {
+			continue
+		}
+		before := snapshot(a)
+		rs1, p1 := lintObj(a, g)
+		if after := snapshot(a); before != after {
+			fields := fieldDiff(a, o.reparse())
+			rep.violate(Violation{"C05", fmt.Sprintf("linting changed exported fields %v of %s", fields, o.Name), "mutated:" + strings.Join(fields, ","), replayOf(o, map[string]interface{}{"fields": fields})})
+		}
+		if p1 != "" {
+			continue
+		}
+		if rs2, p2 := lintObj(a, g); p2 == "" {
+			if d, ok := sameResults(rs1, rs2); !ok {
+				rep.violate(Violation{"C05", fmt.Sprintf("linting the same parsed %s twice gives a different result: %s", o.Name, d), "repeat:" + lintNameOf(d), replayOf(o, map[string]interface{}{"diff": d})})
+			}
+		}
+		rep.count("all-objects-pass")
+	}
 	var history []*Obj
 	for i := 0; i < nobj && i < len(objs); i++ {
 		o := objs[(i*11+int(seed))%len(objs)]
